@@ -67,7 +67,6 @@ func VerifC11History(k int) {
 					dup++
 				}
 			}
-			verifrt.Known("C11-duplicate-name-survives-remove", dup >= 2)
 			lb.RemoveBackend(name)
 			var kept []verifModelBackend
 			for _, m := range model {
